@@ -595,7 +595,7 @@ def feed(F, R):
              'the chunk handler can be suspended after taking the sender: chunk calls run concurrently, so later pieces (and eof) can overtake this one', b.loc((ys or aw or [takes[0][0]])[0]))
         # every chunk is looked at: nothing in the arm (closed-connection shortcuts, receiver-dropped shortcuts) lets a chunk
         # leave the arm without the sender slot having been consulted, and with a sender present the bytes are always fed
-        entries = {x for x in arm if any(p_ not in arm for p_ in b.pred[x])} or {min(arm)}
+        entries = {x for x in arm if any(p_ not in arm and p_ in b.live for p_ in b.pred[x])} or {min(arm)}
         exits = {x for a_ in arm for x in b.succ[a_] if x not in arm}
         bypass = [x for x in exits for e_ in entries if x in b.reachable(e_, avoid=[takes[0][0]])]
         R.ob('C10.feed', '%s|every-chunk-consults-the-sender-slot' % key, not bypass,
@@ -661,7 +661,7 @@ def feed(F, R):
         if not ok_inst and sets:
             # path-sensitive second opinion (the sender may travel through a tuple / Option before it is stored): on every
             # path of the arm that runs from_stream, `payload.set(..)` is called before the first suspension point
-            entry = min(x for x in arm if any(p_ not in arm for p_ in b.pred[x])) if [x for x in arm if any(p_ not in arm for p_ in b.pred[x])] else min(arm)
+            entry = min(x for x in arm if any(p_ not in arm and p_ in b.live for p_ in b.pred[x])) if [x for x in arm if any(p_ not in arm and p_ in b.live for p_ in b.pred[x])] else min(arm)
             se = SymEx(b, F, loop_visits=0, max_paths=3000, stop_at=lambda x: x not in arm and x != entry)
             set_blocks = {x for x, t in sets}
             bad_paths = 0
